@@ -141,9 +141,9 @@ func PrepareQuery(ctx context.Context, typ Type, selectionSet *SelectionSet) err
 				if selection.SelectionSet != nil {
 					return NewClientError(`scalar field "__typename" must have no selection`)
 				}
-				for _, fragment := range selectionSet.Fragments {
-					fragment.SelectionSet.Selections = append(fragment.SelectionSet.Selections, selection)
-				}
+				// The executor applies union-level selections to every member
+				// itself. (Copying them into the fragments here would also
+				// change every other use of a shared named fragment.)
 				continue
 			}
 			return NewClientError(`unknown field "%s"`, selection.Name)
